@@ -1628,6 +1628,15 @@ func c01GoFuncAndClass(name, req string) (fn, cls string) {
 		fn = "meshops.ScaleAttributeAlongNormal"
 	case "unweld":
 		fn = "meshops.Unweld"
+	// … and the ops that go through Mesh.Transform with exactly one transformer: the method it dispatches to
+	case "flatnormals":
+		fn = "meshops.FlatNormalsTransformer.Transform"
+	case "center":
+		fn = "meshops.CenterAttribute3DTransformer.Transform"
+	case "meshops.translate":
+		fn = "meshops.TranslateAttribute3DTransformer.Transform"
+	case "removeunreferenced":
+		fn = "meshops.RemovedUnreferencedVerticesTransformer.Transform"
 	case "crop":
 		fn = "meshops.CropFloat3Attribute"
 	}
